@@ -173,3 +173,68 @@ func H_C19_chain(nc, ns, nr int) {
 	verifAssert(vLogString(k.log) == first && !k.wrong, "C19: the same request runs a different filter chain the second time")
 	verifCover("served")
 }
+
+const (
+	vMsgRace19  = "C19: two requests served concurrently race on state they share (the answer depends on concurrent traffic)"
+	vMsgStuck19 = "C19: two requests served concurrently can block each other forever"
+)
+
+// family 4: two requests in flight at once, over all schedules (event-order encoding): no conflicting accesses to
+// anything that existed before the requests, no way to block each other.
+// kind 0: filters at the three levels around a route function; 1: CORS filter (computed methods) and OPTIONS filter,
+// two preflights; 2: content encoding on, two encoded responses; 3: entities written according to Accept;
+// 4: a dynamic-routes WebService; router: 0 Curly, 1 JSR311; entry: 0 Dispatch, 1 ServeHTTP
+func H_C19_conc(kind, router, entry int) {
+	c := NewContainer()
+	c.Router(vRouter(router))
+	pass := func(req *Request, resp *Response, chain *FilterChain) { chain.ProcessFilter(req, resp) }
+	ws := new(WebService)
+	ws.Path("/t")
+	if kind == 4 {
+		ws.SetDynamicRoutes(true)
+	}
+	hdr := map[string]string{}
+	method, path := "GET", "/t/a"
+	switch kind {
+	case 0, 4:
+		c.Filter(pass)
+		ws.Filter(pass)
+		ws.Route(ws.GET("/a").Filter(pass).To(func(req *Request, resp *Response) { resp.WriteHeader(204) }))
+		ws.Route(ws.GET("/{v}").To(func(req *Request, resp *Response) { resp.Write([]byte(req.PathParameter("v"))) }))
+	case 1:
+		cors := CrossOriginResourceSharing{AllowedDomains: []string{"http://o"}, AllowedHeaders: []string{"X-A"}, CookiesAllowed: true, Container: c}
+		c.Filter(cors.Filter)
+		c.Filter(c.OPTIONSFilter)
+		ws.Route(ws.GET("/a").To(func(req *Request, resp *Response) {}))
+		ws.Route(ws.PUT("/a").To(func(req *Request, resp *Response) {}))
+		method = "OPTIONS"
+		hdr = map[string]string{"Origin": "http://o", HEADER_AccessControlRequestMethod: "PUT"}
+	case 2:
+		c.EnableContentEncoding(true)
+		ws.Route(ws.GET("/a").To(func(req *Request, resp *Response) { resp.Write([]byte("abc")) }))
+		hdr = map[string]string{"Accept-Encoding": "gzip"}
+	case 3:
+		ws.Route(ws.GET("/a").Produces(MIME_XML, MIME_JSON).To(func(req *Request, resp *Response) { resp.WriteEntity(vEntity{A: 1, B: "x"}) }))
+		hdr = map[string]string{"Accept": "application/json;q=0.8, application/xml;q=0.9"}
+	}
+	c.Add(ws)
+	// an earlier request has filled whatever is remembered between requests
+	c.Dispatch(vNewRec(), vHdrReq(method, path, hdr))
+	for t := 0; t < 2; t++ {
+		p := path
+		if t == 1 && (kind == 0 || kind == 4) {
+			p = "/t/other" // the second request goes to the neighbouring route
+		}
+		rec := vNewRec()
+		req := vHdrReq(method, p, hdr)
+		verifSpawn(func() {
+			if entry == 0 {
+				c.Dispatch(rec, req)
+			} else {
+				c.ServeHTTP(rec, req)
+			}
+		})
+	}
+	verifRunThreads(vMsgRace19, vMsgStuck19)
+	verifCover("concurrent-requests")
+}
